@@ -153,6 +153,11 @@ def run(ctx):
     rcs, stress_out, errs = conc_util.run_parallel(binp, stress_lines, nproc=1, timeout=900)
     if len(stress_out) < len(stress_lines):
         stress_out.append("stress crashed (rc=%d) %s" % (rcs, errs[-300:].replace("\n", " ")))
+    # two mappings of one shared-memory mutex, real futex syscalls (no shim): a wake through one
+    # mapping must reach a waiter asleep through the other (process-shared futex)
+    twomap_line = "twomap %d" % (200 if ctx.thorough else 40)
+    rct, twomap_out, errt = conc_util.run_parallel(binp, [twomap_line], nproc=1, timeout=900)
+    twomap_res = twomap_out[0] if twomap_out else "twomap crashed (rc=%d) %s" % (rct, errt[-300:].replace("\n", " "))
     results = []
     bad = []
     for i, l in enumerate(lines):
@@ -188,6 +193,15 @@ def run(ctx):
                       dict(replay_of(i), contradicts="mutex_exclusive / no_stuck_state / unlock_never_bugs (coq/props/C43.v)"))
     for l in stress_bad[:2]:
         ctx.violation("free-running threads on the real futex: " + l, {"stress": l, "replay_cmd": "echo 'stress 12 50000' | build/target/debug/c43"})
+    if not twomap_res.startswith("twomap ok"):
+        ctx.violation("real futex, one shared-memory mutex mapped twice: " + twomap_res,
+                      {"scenario": "memfd region mapped twice with MAP_SHARED; thread A locks through one mapping and holds; thread B calls "
+                                   "lock through the other mapping and is observed asleep in futex_wait (/proc/self/task/<tid>/wchan); A unlocks; "
+                                   "B must acquire within 5 s; roles alternate each round; hooks' futex shim not used (real system calls)",
+                       "result": twomap_res, "replay_cmd": "echo '%s' | build/target/debug/c43" % twomap_line,
+                       "contradicts": "no_lost_wakeup / no_stuck_state under the assumption futex_shared_on_key (coq/props/C43.v): "
+                                      "the futex must be process-shared on the key word"})
+    ctx.oblige("oracle:two-mappings-real-futex-wakeup", twomap_res.startswith("twomap ok"), twomap_res)
     ctx.oblige("oracle:exclusive-no-stuck-no-bug-on-impl", not bad and not stress_bad, str([(cases[i][1][:80], results[i][2]) for i in bad[:3]] + stress_bad[:2]))
 
     # ---- correspondence: model digest = implementation digest, compared inside Coq
@@ -253,12 +267,13 @@ def run(ctx):
                 "produced contention (a failed compare_exchange or a futex sleep); distinct by state-sequence digest",
         "distribution": fams,
         "stress_runs": stress_out,
+        "two_mapping_real_futex": twomap_res,
         "cas_fallback": cas_info,
         "samples": [{"case": cases[i][1][:160], "events": len(results[i][4]), "stats": results[i][3], "flags": results[i][2]} for i in (0, len(cases) // 2, len(cases) - 1)],
     })
     ctx.assumptions += [
         "sequentially consistent interleaving of the individual atomic operations (the Relaxed load in the spin loop and all SeqCst operations are single steps); weaker-memory reorderings are not modelled",
-        "futex_wait/futex_wake behave as the atomic compare-and-enqueue / dequeue-one of the Linux futex contract (the real syscall is exercised only by the stress runs)",
+        "futex_wait/futex_wake behave as the atomic compare-and-enqueue / dequeue-one of the Linux futex contract on ONE queue per mutex word, i.e. a process-shared futex on the key word whatever mapping a thread uses; the syscall sites are pinned by futex_shared_on_key (no private flag, address = key) and the real syscall is exercised by the stress runs and by the two-mapping wake-up scenario",
         "lockers are well behaved: every unlock is the drop of the guard returned by lock",
         "Linux futex path only; the macOS ulock path is not covered; the CAS-only fallback has its own small model and theorem",
     ]
